@@ -21,6 +21,12 @@ Proof.
   destruct (d =? c) eqn:E; try discriminate. inversion H; subst. f_equal. lia.
 Qed.
 
+Local Arguments strip_prefix : simpl never.
+Local Arguments parse_chars : simpl never.
+Local Arguments parse_number : simpl never.
+Local Arguments skip_ws : simpl never.
+Local Arguments peek_is : simpl never.
+
 (* ------------------------------------------------------------------ *)
 (* soundness *)
 
@@ -87,18 +93,20 @@ Proof.
     apply IHv in PV. destruct PV as [u [A B]].
     destruct (skip_ws_spec t) as [w1 [W1 [W2 _]]].
     destruct (skip_ws_spec r1) as [w2 [V1 [V2 _]]].
+    assert (T : t = (w1 ++ u ++ w2) ++ skip_ws r1).
+    { rewrite W2, A, V2 at 1. repeat rewrite <- app_assoc. reflexivity. }
     destruct (skip_ws r1) as [|d r2] eqn:SR; try discriminate.
     destruct (d =? 44) eqn:E44.
     + assert (d = 44) by lia. subst d.
-      destruct (parse_elems f r2) as [[vs' r3]|] eqn:PE; try discriminate. inversion H; subst.
+      destruct (parse_elems f r2) as [[vs' r3]|] eqn:PE; try discriminate. inversion H; subst vs r3.
       apply IHe in PE. destruct PE as [u' [A' B']]. subst r2.
       exists ((w1 ++ u ++ w2) ++ 44 :: u'). split.
-      * rewrite W2, A, V2. repeat rewrite <- app_assoc. simpl. reflexivity.
+      * rewrite T. repeat (rewrite <- app_assoc; simpl). reflexivity.
       * apply DEs_cons; auto. constructor; auto.
     + destruct (d =? 93) eqn:E93; try discriminate. assert (d = 93) by lia. subst d.
-      inversion H; subst.
+      inversion H; subst vs r2.
       exists (w1 ++ u ++ w2). split.
-      * rewrite W2, A, V2. repeat rewrite <- app_assoc. reflexivity.
+      * exact T.
       * apply DEs_one. constructor; auto.
   - (* members *)
     intros t ms r H. simpl in H.
@@ -129,4 +137,163 @@ Proof.
       exists (w1 ++ (34 :: body ++ [34]) ++ w2 ++ 58 :: (w3 ++ u ++ w4)). split.
       * exact T.
       * apply DMs_one; auto. constructor; auto. constructor; auto.
+Qed.
+
+(* ------------------------------------------------------------------ *)
+(* completeness *)
+
+Scheme DVal_min := Minimality for DVal Sort Prop
+  with DElem_min := Minimality for DElem Sort Prop
+  with DElems_min := Minimality for DElems Sort Prop
+  with DMembers_min := Minimality for DMembers Sort Prop.
+Combined Scheme D_mutind from DVal_min, DElem_min, DElems_min, DMembers_min.
+
+Lemma DVal_head : forall v t, DVal v t ->
+  exists c tl, t = c :: tl /\ is_ws c = false /\ c <> 93 /\ c <> 125.
+Proof.
+  intros v t H. destruct H; try (eexists; eexists; split; [reflexivity|]; repeat split; chars).
+  - inversion H; subst. destruct neg; simpl.
+    + eexists; eexists; split; [reflexivity|]. repeat split; chars.
+    + apply int_okb_inv in H0. destruct H0 as [A | [c [ds [A [B C]]]]]; subst; simpl;
+        (eexists; eexists; split; [reflexivity|]; repeat split; chars).
+  - inversion H; subst. eexists; eexists; split; [reflexivity|]. repeat split; chars.
+Qed.
+
+Lemma DNumber_head : forall neg ip fp ex t, DNumber neg ip fp ex t ->
+  exists c tl, t = c :: tl /\ (is_digit c = true \/ c = 45).
+Proof.
+  intros neg ip fp ex t H. inversion H; subst. destruct neg; simpl.
+  - eexists; eexists; split; [reflexivity|]. auto.
+  - apply int_okb_inv in H0. destruct H0 as [A | [c [ds [A [B C]]]]]; subst; simpl;
+      (eexists; eexists; split; [reflexivity|]); left; chars.
+Qed.
+
+Lemma DElem_head : forall v t x, DElem v t ->
+  exists c tl, skip_ws (t ++ x) = c :: tl /\ is_ws c = false /\ c <> 93 /\ c <> 125.
+Proof.
+  intros v t x H. inversion H; subst.
+  destruct (DVal_head _ _ H1) as [c [tl [A [B [C D]]]]]. subst t0.
+  rewrite <- app_assoc. rewrite skip_ws_app; auto. simpl.
+  exists c, ((tl ++ w2) ++ x). split; auto.
+  apply skip_ws_nows. simpl. auto.
+Qed.
+
+Lemma DElems_head : forall vs t x, DElems vs t -> exists c tl, skip_ws (t ++ x) = c :: tl /\ c <> 93.
+Proof.
+  intros vs t x H. inversion H; subst.
+  - destruct (DElem_head _ _ x H0) as [c [tl [A [B [C D]]]]]. eauto.
+  - rewrite <- app_assoc. destruct (DElem_head _ _ ((44 :: t') ++ x) H0) as [c [tl [A [B [C D]]]]]. eauto.
+Qed.
+
+Lemma DMembers_head : forall ms t x, DMembers ms t -> exists tl, skip_ws (t ++ x) = 34 :: tl.
+Proof.
+  intros ms t x H.
+  assert (G : forall w1 k tk rest, ws w1 -> DString k tk -> exists tl, skip_ws ((w1 ++ tk ++ rest) ++ x) = 34 :: tl).
+  { intros w1 k tk rest W S. inversion S; subst. rewrite <- app_assoc. rewrite skip_ws_app; auto.
+    simpl. eexists. apply skip_ws_nows. simpl. reflexivity. }
+  inversion H; subst.
+  - eapply G; eauto.
+  - rewrite <- app_assoc. rewrite <- app_assoc.
+    inversion H1; subst. rewrite skip_ws_app; auto. simpl. eexists. apply skip_ws_nows. reflexivity.
+Qed.
+
+Lemma peek_is_cons_ne : forall c d tl, d <> c -> peek_is c (d :: tl) = None.
+Proof. intros. unfold peek_is. assert (E : (d =? c) = false) by lia. rewrite E. auto. Qed.
+
+Lemma peek_is_cons_eq : forall c tl, peek_is c (c :: tl) = Some tl.
+Proof. intros. unfold peek_is. rewrite N.eqb_refl. auto. Qed.
+
+Lemma efollow_follow : forall r, efollow r -> follow r.
+Proof. destruct r; simpl; auto. intros. chars. Qed.
+
+Lemma efollow_nows : forall r, efollow r -> nows_start r.
+Proof. destruct r; simpl; auto. intros. chars. Qed.
+
+Lemma parse_complete_mut :
+  (forall v u, DVal v u -> forall f r, (length u < f)%nat -> follow r -> parse_val f (u ++ r) = Some (v, r)) /\
+  (forall v u, DElem v u -> forall f r, (length u < f)%nat -> efollow r ->
+      exists r', parse_val f (skip_ws (u ++ r)) = Some (v, r') /\ skip_ws r' = r) /\
+  (forall vs u, DElems vs u -> forall f r, (length u + 1 < f)%nat -> parse_elems f (u ++ 93 :: r) = Some (vs, r)) /\
+  (forall ms u, DMembers ms u -> forall f r, (length u + 1 < f)%nat -> parse_members f (u ++ 125 :: r) = Some (ms, r)).
+Proof.
+  apply D_mutind.
+  - (* null *) intros f r L F. destruct f; [simpl in L; lia|]. reflexivity.
+  - intros f r L F. destruct f; [simpl in L; lia|]. reflexivity.
+  - intros f r L F. destruct f; [simpl in L; lia|]. reflexivity.
+  - (* number *)
+    intros neg ip fp ex t H f r L F. destruct f; [lia|].
+    pose proof (parse_number_complete _ _ _ _ _ r H F) as PN.
+    destruct (DNumber_head _ _ _ _ _ H) as [c [tl [A HC]]].
+    rewrite A in *. simpl app. cbn [parse_val].
+    assert (E1 : (c =? 91) = false) by (destruct HC; chars).
+    assert (E2 : (c =? 123) = false) by (destruct HC; chars).
+    assert (E3 : (c =? 34) = false) by (destruct HC; chars).
+    assert (E4 : (c =? 110) = false) by (destruct HC; chars).
+    assert (E5 : (c =? 116) = false) by (destruct HC; chars).
+    assert (E6 : (c =? 102) = false) by (destruct HC; chars).
+    rewrite E1, E2, E3, E4, E5, E6. exact PN.
+  - (* string *)
+    intros s t H f r L F. destruct f; [lia|]. inversion H; subst.
+    simpl app. cbn [parse_val]. simpl. rewrite <- app_assoc. simpl.
+    rewrite (parse_chars_complete _ _ H0). reflexivity.
+  - (* [] *)
+    intros w W f r L F. destruct f; [lia|]. simpl app. cbn [parse_val]. simpl.
+    rewrite <- app_assoc. rewrite skip_ws_app by auto. simpl. reflexivity.
+  - (* [elems] *)
+    intros vs t H IH f r L F. destruct f; [lia|]. simpl app. cbn [parse_val]. simpl.
+    rewrite <- app_assoc. simpl.
+    destruct (DElems_head _ _ (93 :: r) H) as [c [tl [A B]]]. rewrite A.
+    rewrite peek_is_cons_ne by auto.
+    rewrite IH; auto. simpl in L. rewrite app_length in L. simpl in L. lia.
+  - (* {} *)
+    intros w W f r L F. destruct f; [lia|]. simpl app. cbn [parse_val]. simpl.
+    rewrite <- app_assoc. rewrite skip_ws_app by auto. simpl. reflexivity.
+  - (* {members} *)
+    intros ms t H IH f r L F. destruct f; [lia|]. simpl app. cbn [parse_val]. simpl.
+    rewrite <- app_assoc. simpl.
+    destruct (DMembers_head _ _ (125 :: r) H) as [tl A]. rewrite A.
+    rewrite peek_is_cons_ne by lia.
+    rewrite IH; auto. simpl in L. rewrite app_length in L. simpl in L. lia.
+  - (* element *)
+    intros v w1 t w2 W1 H IH W2 f r L F.
+    destruct (DVal_head _ _ H) as [c [tl [A [B _]]]].
+    repeat rewrite <- app_assoc. rewrite skip_ws_app by auto.
+    rewrite skip_ws_nows by (rewrite A; simpl; auto).
+    exists (w2 ++ r). split.
+    + apply IH.
+      * repeat rewrite app_length in L. lia.
+      * destruct w2 as [|x w2']; simpl.
+        -- apply efollow_follow; auto.
+        -- apply ws_inv in W2. destruct W2. chars.
+    + rewrite skip_ws_app by auto. apply skip_ws_nows. apply efollow_nows; auto.
+  - (* one element *)
+    intros v t H IH f r L. destruct f; [lia|]. cbn [parse_elems].
+    destruct (IH f (93 :: r)) as [r' [A B]]; [lia | reflexivity |].
+    rewrite A, B. simpl. reflexivity.
+  - (* more elements *)
+    intros v t vs t' H IH H' IH' f r L. destruct f; [lia|]. cbn [parse_elems].
+    rewrite <- app_assoc. simpl.
+    rewrite app_length in L. simpl in L.
+    destruct (IH f (44 :: t' ++ 93 :: r)) as [r' [A B]]; [lia | reflexivity |].
+    rewrite A, B. simpl. rewrite IH'; auto. lia.
+  - (* one member *)
+    intros k v w1 tk w2 tv W1 HS W2 H IH f r L. destruct f; [lia|]. cbn [parse_members].
+    inversion HS; subst.
+    repeat (rewrite <- app_assoc; simpl). rewrite skip_ws_app by auto.
+    rewrite skip_ws_nows by (simpl; reflexivity). rewrite peek_is_cons_eq.
+    rewrite (parse_chars_complete _ _ H0).
+    rewrite skip_ws_app by auto. rewrite skip_ws_nows by (simpl; reflexivity). rewrite peek_is_cons_eq.
+    repeat first [rewrite app_length in L | progress cbn [length] in L].
+    destruct (IH f (125 :: r)) as [r' [A B]]; [lia | reflexivity |].
+    rewrite A, B. simpl. reflexivity.
+  - (* more members *)
+    intros k v w1 tk w2 tv ms t' W1 HS W2 H IH H' IH' f r L. destruct f; [lia|]. cbn [parse_members].
+    inversion HS; subst.
+    repeat (rewrite <- app_assoc; simpl). rewrite skip_ws_app by auto.
+    rewrite skip_ws_nows by (simpl; reflexivity). rewrite peek_is_cons_eq.
+    rewrite (parse_chars_complete _ _ H0).
+    rewrite skip_ws_app by auto. rewrite skip_ws_nows by (simpl; reflexivity). rewrite peek_is_cons_eq.
+    repeat first [rewrite app_length in L | progress cbn [length] in L].
+    destruct (IH f (44 :: t' ++ 125 :: r)) as [r' [A B]]; [lia | reflexivity |].
+    rewrite A, B. simpl. rewrite IH'; auto. lia.
 Qed.
